@@ -4,7 +4,7 @@
 # 2. + demo                  -> the demo must FAIL
 # 3. demo without the patch  -> the demo must PASS
 # 4. patch applied to /repo  -> ./check <ID> quick must exit 1 with a VIOLATION line; /repo restored
-ID=$1; DEMO=$2; WT=/tmp/wt-$ID; OUT=$WT/OUT
+ID=$1; DEMO=$2; WT=${SEED_WT:-/tmp/wt-$ID}; OUT=$WT/OUT
 cd $WT || exit 2
 git checkout -q -- . ; git clean -qfd crates 2>/dev/null
 git apply OUT/patch.diff || { echo "PATCH DOES NOT APPLY"; exit 2; }
